@@ -213,7 +213,60 @@ def run_reset_race(req):
     return {"obs": obs[:3], "stats": {"reset_points": npoints}}
 
 
+def run_failed_selftest(req):
+    """auto-detection state; the first-use self-test fails once (a fault injected inside the trickery analysis it runs), which
+    leaves the switch at 'referents' with a warning; set_trickery_enabled(None) must then restore auto-detection: the next
+    extraction, with the fault gone, runs the self-test again and uses trickery"""
+    import sys
+    obs = []
+    g = ref_gen()
+    next(g)
+    set_trickery_enabled(None)
+    state = {"fired": False}
+
+    class Injected(Exception):
+        pass
+
+    def tracer(frame, event, arg):
+        if event == "call" and frame.f_code.co_name == "_contexts_active_by_trickery" and not state["fired"]:
+            f = frame.f_back
+            while f is not None and f.f_code.co_name != "_check_trickery_available":
+                f = f.f_back
+            if f is not None:
+                def local(frame, event, arg):
+                    if event == "line" and not state["fired"]:
+                        state["fired"] = True
+                        raise Injected("self-test sabotaged once")
+                    return local
+                return local
+        return None
+
+    sys.settrace(tracer)
+    try:
+        with warnings.catch_warnings(record=True):
+            warnings.simplefilter("always")
+            first = extract(g)
+    except BaseException as ex:
+        obs.append({"kind": "extract_raised_when_the_self_test_failed", "exc": repr(ex)})
+        first = None
+    finally:
+        sys.settrace(None)
+    if not state["fired"]:
+        set_trickery_enabled(None)
+        return {"obs": [], "stats": {"selftest_not_reached": 1}}
+    if first is not None and (first.error is not None or len(first.frames[0].contexts) != 1):
+        obs.append({"kind": "fallback_after_failed_self_test_is_wrong", "error": repr(first.error)})
+    set_trickery_enabled(None)
+    m = mode_in_force(g)
+    if m != "trickery":
+        obs.append({"kind": "None_did_not_restore_auto_detection_after_a_failed_self_test", "mode": m})
+    set_trickery_enabled(None)
+    return {"obs": obs, "stats": {"failed_selftests": 1}}
+
+
 def handle(req):
+    if req["op"] == "modes.failed_selftest":
+        return run_failed_selftest(req)
     if req["op"] == "modes.reset_race":
         return run_reset_race(req)
     if req["op"] == "modes.selftest_race":
